@@ -58,9 +58,10 @@ func pickCap(rng *rand.Rand, unit uint64) uint64 {
 	}
 }
 
+// model is the reference: a sparse, zero-default byte array (256-byte chunks) with a capacity.
 type model struct {
-	cap  uint64
-	data map[uint64]byte
+	cap    uint64
+	chunks map[uint64]*[256]byte
 }
 
 func (m *model) valid(addr, n uint64) bool {
@@ -70,14 +71,23 @@ func (m *model) valid(addr, n uint64) bool {
 func (m *model) read(addr, n uint64) []byte {
 	out := make([]byte, n)
 	for i := uint64(0); i < n; i++ {
-		out[i] = m.data[addr+i]
+		a := addr + i
+		if ch := m.chunks[a>>8]; ch != nil {
+			out[i] = ch[a&255]
+		}
 	}
 	return out
 }
 
 func (m *model) write(addr uint64, d []byte) {
 	for i, b := range d {
-		m.data[addr+uint64(i)] = b
+		a := addr + uint64(i)
+		ch := m.chunks[a>>8]
+		if ch == nil {
+			ch = new([256]byte)
+			m.chunks[a>>8] = ch
+		}
+		ch[a&255] = b
 	}
 }
 
@@ -170,7 +180,7 @@ func oneCase(c *kit.Case, r *kit.R) {
 	nOps := 40 + rng.Intn(121)
 	c.Desc(map[string]any{"capacity": fmt.Sprint(sh.Cap), "unit": sh.Unit, "ops": nOps})
 	s := mem.NewStorageWithUnitSize(sh.Cap, sh.Unit)
-	m := &model{cap: sh.Cap, data: map[uint64]byte{}}
+	m := &model{cap: sh.Cap, chunks: map[uint64]*[256]byte{}}
 	if s.Capacity() != sh.Cap {
 		c.Failf("storage/capacity-accessor", "Capacity()=%d, built with %d", s.Capacity(), sh.Cap)
 	}
